@@ -18,14 +18,16 @@ Lemma step_done c s e s' :
   done s' = done s \/ exists t o, e = EOutput t o /\ done s' = (t, o) :: done s.
 Proof.
   intros H. destruct e; cbn [step] in H.
-  - destruct (find_inst (c_insts c) t); [|discriminate]. kill_if H. injection H as <-. now left.
+  - destruct (find_inst (c_insts c) t); [|discriminate]. kill_if H. injection H as <-. left. cbn.
+    destruct held; [apply (add_hold_fields s t)|reflexivity].
   - destruct (find_task (limbo s) t); [|discriminate]. kill_if H. injection H as <-. now left.
   - destruct (lookup s t) as [[p inp]|]; [|discriminate]. destruct (find_inst (c_insts c) t); [|discriminate].
     kill_if H. injection H as <-. left. apply store_done.
   - destruct (lookup s t) as [[p inp]|]; [|discriminate]. kill_if H.
     injection H as <-. right. exists t, o. split; reflexivity.
   - destruct (lookup s t) as [[p inp]|]; [|discriminate]. destruct (find_inst (c_insts c) t); [|discriminate].
-    kill_if H. injection H as <-. left. apply store_done.
+    kill_if H. injection H as <-. left. rewrite store_done.
+    destruct (h && negb (p_held p)); [apply (add_hold_fields s t)|reflexivity].
   - injection H as <-. now left.
   - kill_if H. injection H as <-. now left.
   - destruct (find_task (pool s) t); [|discriminate]. destruct (find_inst (c_insts c) t); [|discriminate].
@@ -35,6 +37,12 @@ Proof.
   - destruct (pool s); [injection H as <-; now left|]. kill_if H. injection H as <-; now left.
   - destruct (lookup s t) as [[p inp]|]; [|discriminate]. injection H as <-. left. apply store_done.
   - kill_if H. injection H as <-. now left.
+  - injection H as <-. left. clear. revert s. induction ids as [|t r IH]; intros s; cbn; [reflexivity|].
+    rewrite IH. apply (add_hold_fields s t).
+  - injection H as <-. now left.
+  - injection H as <-. now left.
+  - injection H as <-. now left.
+  - injection H as <-. now left.
   - kill_if H. injection H as <-. now left.
   - kill_if H. injection H as <-. now left.
 Qed.
@@ -58,12 +66,14 @@ Theorem pool_no_duplicates c tr s :
 Proof. intros H. apply (inv_nodup c s). eapply reachable_Inv; eauto. Qed.
 
 (* acceptance of a tick end means the abstract pool IS the reported pool *)
-Theorem tick_end_pool_agrees c s snap s' :
-  step c s (ETickEnd snap) = Ok s' ->
+Theorem tick_end_pool_agrees c s snap hl hp s' :
+  step c s (ETickEnd snap hl hp) = Ok s' ->
   length snap = length (pool s) /\
   forall v, In v snap -> exists p, find_task (pool s) (v_id v) = Some p /\ view_matches p v = true.
 Proof.
   cbn [step]. destruct (negb (Nat.eqb (length snap) (length (pool s)))) eqn:E1; [discriminate|].
+  destruct (negb (same_tids hl (to_hold s) && option_eqb Z.eqb hp (hold_pt s))); [discriminate|].
+  destruct (negb (forallb (fun p => Bool.eqb (p_held p) (mem tid_eqb (p_id p) (to_hold s))) (pool s))); [discriminate|].
   destruct (negb (forallb _ snap)) eqn:E2; [discriminate|]. intros _.
   apply negb_false_iff in E1, E2. apply Nat.eqb_eq in E1. split; [exact E1|].
   rewrite forallb_forall in E2. intros v Hv. specialize (E2 v Hv).
@@ -230,12 +240,15 @@ Qed.
 
 (* a tick end is accepted only if no ready task has been left unqueued, and no task within the
    runahead limit left unreleased, for [max_idle] consecutive iterations *)
-Theorem tick_end_progress c s snap s' :
-  step c s (ETickEnd snap) = Ok s' ->
+Theorem tick_end_progress c s snap hl hp s' :
+  step c s (ETickEnd snap hl hp) = Ok s' ->
   forall p, In p (pool s') -> (p_idle p < max_idle)%nat /\ (p_lag p < max_idle)%nat.
 Proof.
   cbn [step].
-  destruct (negb (Nat.eqb _ _)); [discriminate|]. destruct (negb (forallb _ snap)); [discriminate|].
+  destruct (negb (Nat.eqb _ _)); [discriminate|].
+  destruct (negb (same_tids hl (to_hold s) && option_eqb Z.eqb hp (hold_pt s))); [discriminate|].
+  destruct (negb (forallb (fun p => Bool.eqb (p_held p) (mem tid_eqb (p_id p) (to_hold s))) (pool s))); [discriminate|].
+  destruct (negb (forallb _ snap)); [discriminate|].
   destruct (existsb (fun p => Nat.leb max_idle (p_idle p)) _) eqn:E1; [discriminate|].
   destruct (existsb (fun p => Nat.leb max_idle (p_lag p)) _) eqn:E2; [discriminate|].
   destruct (negb (forallb _ (pool s))); [discriminate|]. destruct (existsb _ (pool s)); [discriminate|].
@@ -307,13 +320,16 @@ Proof.
   intros _. apply andb_true_iff in E. exists p, i. tauto.
 Qed.
 
-Theorem finished_complete_not_retained c s snap s' :
-  step c s (ETickEnd snap) = Ok s' ->
+Theorem finished_complete_not_retained c s snap hl hp s' :
+  step c s (ETickEnd snap hl hp) = Ok s' ->
   forall p i, In p (pool s) -> find_inst (c_insts c) (p_id p) = Some i ->
     is_final (p_status p) = true -> cx_eval (has_out (p_outs p)) (i_comp i) = false.
 Proof.
   cbn [step].
-  destruct (negb (Nat.eqb _ _)); [discriminate|]. destruct (negb (forallb _ snap)); [discriminate|].
+  destruct (negb (Nat.eqb _ _)); [discriminate|].
+  destruct (negb (same_tids hl (to_hold s) && option_eqb Z.eqb hp (hold_pt s))); [discriminate|].
+  destruct (negb (forallb (fun p => Bool.eqb (p_held p) (mem tid_eqb (p_id p) (to_hold s))) (pool s))); [discriminate|].
+  destruct (negb (forallb _ snap)); [discriminate|].
   destruct (existsb _ _); [discriminate|]. destruct (existsb _ _); [discriminate|].
   destruct (negb (forallb _ (pool s))); [discriminate|].
   destruct (existsb _ (pool s)) eqn:E; [discriminate|]. intros _ p i Hp Hi Hf.
@@ -384,13 +400,61 @@ Proof.
   unfold out_done in E. apply mem_key_In in E. destruct k; exact E.
 Qed.
 
-Theorem abs_outputs_reflected_at_tick_end c s snap s' :
-  step c s (ETickEnd snap) = Ok s' ->
+Theorem abs_outputs_reflected_at_tick_end c s snap hl hp s' :
+  step c s (ETickEnd snap hl hp) = Ok s' ->
   forall p i, In p (pool s) -> find_inst (c_insts c) (p_id p) = Some i -> abs_reflected s i p = true.
 Proof.
   cbn [step].
-  destruct (negb (Nat.eqb _ _)); [discriminate|]. destruct (negb (forallb _ snap)); [discriminate|].
+  destruct (negb (Nat.eqb _ _)); [discriminate|].
+  destruct (negb (same_tids hl (to_hold s) && option_eqb Z.eqb hp (hold_pt s))); [discriminate|].
+  destruct (negb (forallb (fun p => Bool.eqb (p_held p) (mem tid_eqb (p_id p) (to_hold s))) (pool s))); [discriminate|].
+  destruct (negb (forallb _ snap)); [discriminate|].
   destruct (existsb _ _); [discriminate|]. destruct (existsb _ _); [discriminate|].
   destruct (negb (forallb _ (pool s))) eqn:E; [discriminate|]. intros _ p i Hp Hi.
   apply negb_false_iff in E. rewrite forallb_forall in E. specialize (E p Hp). now rewrite Hi in E.
+Qed.
+
+(* ------------------------------------------------------------------ *)
+(* C06: holds                                                           *)
+(* ------------------------------------------------------------------ *)
+Theorem hold_flag_changes_only_on_request c s t st h q r s' p inp :
+  step c s (EState t st h q r) = Ok s' -> lookup s t = Some (p, inp) ->
+  (h = true -> p_held p = false -> hold_expected s t = true) /\
+  (h = false -> p_held p = true -> mem tid_eqb t (to_hold s) = false).
+Proof.
+  cbn [step]. intros H El. rewrite El in H.
+  destruct (find_inst (c_insts c) t); [|discriminate].
+  destruct (_ && _) in H; [discriminate|]. destruct (_ && _) in H; [discriminate|].
+  destruct (_ && _) in H; [discriminate|]. destruct (_ && _) in H; [discriminate|].
+  destruct (h && negb (p_held p) && negb (hold_expected s t)) eqn:E5; [discriminate|].
+  destruct (negb h && p_held p && mem tid_eqb t (to_hold s)) eqn:E6; [discriminate|].
+  split.
+  - intros -> Hp. rewrite Hp in E5. cbn in E5. now apply negb_false_iff in E5.
+  - intros -> Hp. rewrite Hp in E6. cbn in E6. exact E6.
+Qed.
+
+Theorem spawned_held_iff_requested c s t fl sat0 held s' :
+  step c s (ESpawn t fl sat0 held) = Ok s' -> held = hold_expected s t.
+Proof.
+  cbn [step]. destruct (find_inst (c_insts c) t); [|discriminate].
+  destruct (negb _); [discriminate|]. destruct (existsb _ _); [discriminate|].
+  destruct (negb (subset_keys _ _)); [discriminate|].
+  destruct (negb (Bool.eqb held (hold_expected s t))) eqn:E; [discriminate|]. intros _.
+  apply negb_false_iff in E. now apply eqb_prop in E.
+Qed.
+
+Theorem tick_end_hold_state c s snap hl hp s' :
+  step c s (ETickEnd snap hl hp) = Ok s' ->
+  same_tids hl (to_hold s) = true /\ hp = hold_pt s /\
+  forall p, In p (pool s) -> p_held p = mem tid_eqb (p_id p) (to_hold s).
+Proof.
+  cbn [step]. destruct (negb (Nat.eqb _ _)); [discriminate|].
+  destruct (negb (same_tids hl (to_hold s) && option_eqb Z.eqb hp (hold_pt s))) eqn:E1; [discriminate|].
+  destruct (negb (forallb (fun p => Bool.eqb (p_held p) (mem tid_eqb (p_id p) (to_hold s))) (pool s))) eqn:E2;
+    [discriminate|]. intros _.
+  apply negb_false_iff in E1, E2. apply andb_true_iff in E1. destruct E1 as [E1 E1'].
+  split; [exact E1|]. split.
+  - destruct hp as [x|], (hold_pt s) as [y|]; cbn in E1'; try discriminate; auto.
+    apply Z.eqb_eq in E1'. now subst.
+  - rewrite forallb_forall in E2. intros p Hp. apply eqb_prop. auto.
 Qed.
